@@ -14,6 +14,21 @@ TBR = "func_adl/type_based_replacement.py"
 FS = "func_adl/ast/function_simplifier.py"
 
 MUTANTS = {
+    "C10": [
+        {"name": "compare-rebuilt", "edits": [(TBR, "            t_node = self.generic_visit(node)\n            self._found_types[node] = bool\n            self._found_types[t_node] = bool\n            return t_node\n\n        def visit_IfExp", "            t_node = self.generic_visit(node)\n            if len(node.ops) > 1:\n                t_node = ast.Compare(left=node.left, ops=node.ops[:1], comparators=node.comparators[:1])\n            self._found_types[node] = bool\n            self._found_types[t_node] = bool\n            return t_node\n\n        def visit_IfExp")]},
+        {"name": "unary-keyerror-again", "edits": [(TBR, "            self._found_types[node] = self.lookup_type(node.operand)\n", "            self._found_types[node] = self._found_types[node.operand]\n")]},
+        {"name": "where-is-not-bool", "edits": [(OS_, "        if rtn_type != bool:", "        if rtn_type is not bool and rtn_type is not int:")], "equivalent": "untyped bodies never type to int unless constant arithmetic"},
+        {"name": "boolop-any", "edits": [(TBR, "            t_node = super().generic_visit(node)\n            self._found_types[node] = bool\n            self._found_types[t_node] = bool\n\n            return t_node", "            t_node = super().generic_visit(node)\n            self._found_types[node] = bool if len(node.values) == 2 else Any\n            self._found_types[t_node] = bool if len(node.values) == 2 else Any\n\n            return t_node")]},
+        {"name": "ast-attr-fold-again", "edits": [(UA, "        if isinstance(value, ast.Constant) and hasattr(value.value, node.attr):", "        if hasattr(value, \"value\") and hasattr(value.value, node.attr):")]},
+        {"name": "keyword-order-normalised", "edits": [(TBR, "            t_node = self.generic_visit(node)\n            assert isinstance(t_node, ast.Call)\n            if isinstance(t_node.func, ast.Attribute):", "            t_node = self.generic_visit(node)\n            assert isinstance(t_node, ast.Call)\n            t_node.keywords = sorted(t_node.keywords, key=lambda k: k.arg or '')\n            if isinstance(t_node.func, ast.Attribute):")]},
+        {"name": "ifexp-float-promotes-bool", "edits": [(TBR, "            elif t_true in [int, float, Any] and t_false in [int, float, Any]:", "            elif t_true in [int, float, Any, bool] and t_false in [int, float, Any, bool]:")], "equivalent": "accepts more; refusals are not required by the statement"},
+        {"name": "ifexp-str-refused", "edits": [(TBR, "            if t_true == t_false:\n                final_type = t_true", "            if t_true == t_false and t_true is not str:\n                final_type = t_true")]},
+        {"name": "tuple-index-strict", "edits": [(TBR, "                if len(t_node.value.elts) <= index:", "                if len(t_node.value.elts) - 1 <= index:")]},
+        {"name": "dict-star-key-lost", "edits": [(TBR, "                key_index = [\n                    e for e, k in enumerate(t_node.value.keys) if k.value == key  # type: ignore\n                ]", "                key_index = [\n                    e for e, k in enumerate(t_node.value.keys[:2]) if k.value == key  # type: ignore\n                ]")]},
+        {"name": "check-ast-off-in-select", "edits": [(OS_, "            self, _local_simplification(parse_as_ast(f, \"Select\")), known_types\n        )\n        check_ast(n_ast)", "            self, _local_simplification(parse_as_ast(f, \"Select\")), known_types\n        )")], "equivalent": "emitting a None constant unchanged is not forbidden by C10 (C13 covers it)"},
+        {"name": "lambda-args-copied", "edits": [(TBR, "    return stream, ast.Lambda(l_func.args, new_body), return_type  # type: ignore", "    return stream, ast.Lambda(ast.arguments(posonlyargs=[], args=[ast.arg(arg=var_name)], kwonlyargs=[], kw_defaults=[], defaults=[]), new_body), return_type  # type: ignore")], "equivalent": True},
+        {"name": "string-strip-comments", "edits": [(UA, "        a = ast.parse(ast_source.strip())  # type: ignore", "        a = ast.parse(ast_source.split('#')[0].strip())  # type: ignore")]},
+    ],
     "C14": [
         {"name": "selectmany-of-selectmany-unvisited", "edits": [(FS, "        return self.visit(new_select_many)", "        return new_select_many")]},
         {"name": "where-of-select-unvisited", "edits": [(FS, "        # Recursively visit this mess to see if the Where needs to move further up.\n        return self.visit(s)", "        return s")]},
